@@ -7,6 +7,7 @@ import (
 	"fmt"
 	"go/token"
 	"go/types"
+	"regexp"
 	"strings"
 
 	"golang.org/x/tools/go/ssa"
@@ -208,29 +209,8 @@ func e1(w *World, r *Report) {
 func e2(w *World, r *Report) {
 	fin := needFn(r, "E-2", w, fref{pkgEVM, "StateDBWrapper", "Finish"})
 	if fin != nil {
-		k := "next(range(recv.accessedObjAddrs))#1"
-		ac := "recv.acctHandler.FindOrNewAccount(" + k + "[:], recv.exec)"
-		var sb, sn, mk ssa.CallInstruction
-		for _, c := range CallsIn(fin) {
-			s := w.canonCall(c.Common(), 0)
-			switch {
-			case strings.HasSuffix(s, ".SetBalance(uint256.MustFromBig(recv.StateDB.GetBalance("+addrOf(w, fin)+")))"):
-				sb = c
-			case strings.HasSuffix(s, ".SetNonce(recv.StateDB.GetNonce("+addrOf(w, fin)+"))"):
-				sn = c
-			case strings.HasPrefix(s, "recv.acctHandler.SetAccountCommittable(") && strings.HasSuffix(s, ", recv.exec)"):
-				mk = c
-			}
-		}
-		_ = ac
-		ok := sb != nil && sn != nil && mk != nil && instrDominates(sb, mk) && instrDominates(sn, mk)
-		if ok {
-			r1, _ := callRecvArgs(sb.Common())
-			r2, _ := callRecvArgs(sn.Common())
-			_, ma := callRecvArgs(mk.Common())
-			ok = sameValue(r1, r2) && sameValue(ma[0], r1) && strings.HasPrefix(w.Canon(r1), "recv.acctHandler.FindOrNewAccount(") && strings.HasSuffix(w.Canon(r1), "[:], recv.exec)")
-		}
-		r.Check(ok, "E-2", "Finish:write-back", "for every recorded address the EVM's balance and nonce are written to the native account (exec-selected overlay), which is then marked", "Finish does not write balance and nonce of every recorded address back and mark the account", fnSite(w, fin))
+		okB, okN, why := w.finishWriteBack(fin)
+		r.Check(okB && okN, "E-2", "Finish:write-back", "for every recorded address the EVM's balance and nonce are written to the native account (exec-selected overlay), which is then marked", "Finish does not write balance and nonce of every recorded address back and mark the account: "+why, fnSite(w, fin))
 		st := false
 		for _, s := range w.storesTo(fin, "recv.accessedObjAddrs") {
 			if _, isM := s.Val.(*ssa.MakeMap); isM {
@@ -456,4 +436,75 @@ func (w *World) revertsExactly(ra *ssa.Function) (bool, string) {
 		return true, ""
 	}
 	return false, "no deletion of the range key (directly or via a collected slice) on the edge where target < mark holds"
+}
+
+// finishWriteBack evaluates StateDBWrapper.Finish on its paths (helpers
+// expanded): in every iteration over the recorded addresses the account obtained
+// with FindOrNewAccount(addr, exec) receives the EVM's balance and nonce for that
+// address and is then marked in the exec-selected overlay.
+func (w *World) finishWriteBack(fin *ssa.Function) (okBalance, okNonce bool, why string) {
+	K := regexp.QuoteMeta("next(range(recv.accessedObjAddrs))#1")
+	acct := `recv\.acctHandler\.FindOrNewAccount\(` + K + `\[:\], recv\.exec\)`
+	reSB := regexp.MustCompile(`^` + acct + `\.SetBalance\(uint256\.MustFromBig\(recv\.StateDB\.GetBalance\(` + K + `\)\)\)$`)
+	reSN := regexp.MustCompile(`^` + acct + `\.SetNonce\(recv\.StateDB\.GetNonce\(` + K + `\)\)$`)
+	reMK := regexp.MustCompile(`^recv\.acctHandler\.SetAccountCommittable\(` + acct + `, recv\.exec\)$`)
+	event := func(in ssa.Instruction) string {
+		c, ok := in.(ssa.CallInstruction)
+		if !ok {
+			return ""
+		}
+		s := w.canonCall(c.Common(), 0)
+		switch {
+		case reSB.MatchString(s):
+			return "SB"
+		case reSN.MatchString(s):
+			return "SN"
+		case reMK.MatchString(s):
+			return "MK"
+		}
+		nm := callName(c.Common())
+		if nm == "SetBalance" || nm == "SetNonce" || nm == "SetAccountCommittable" {
+			return "?" + s
+		}
+		return ""
+	}
+	paths, complete := w.enumPaths(fin, func(ssa.Value) (bool, bool) { return false, false }, event, 2000)
+	if !complete {
+		return false, false, "path enumeration incomplete"
+	}
+	okBalance, okNonce = true, true
+	marks := 0
+	for _, p := range paths {
+		sb, sn := false, false
+		for _, e := range p.Events {
+			switch {
+			case e == "SB":
+				sb = true
+			case e == "SN":
+				sn = true
+			case e == "MK":
+				marks++
+				if !sb {
+					okBalance = false
+					why = "an account is marked without the EVM balance having been written to it"
+				}
+				if !sn {
+					okNonce = false
+					why = "an account is marked without the EVM nonce having been written to it"
+				}
+				sb, sn = false, false
+			case strings.HasPrefix(e, "?"):
+				okBalance, okNonce = false, false
+				why = "a write-back call with other operands: " + e[1:]
+			}
+		}
+		if sb || sn {
+			okBalance, okNonce = false, false
+			why = "balance/nonce written to an account that is not marked afterwards"
+		}
+	}
+	if marks == 0 {
+		return false, false, "no iteration writes balance and nonce back and marks the account"
+	}
+	return okBalance, okNonce, why
 }
